@@ -1,12 +1,13 @@
 CONSTANTS
   MaxW = 2
-  InitSize = 2
+  InitSize = 1
   Program <- ProgA
   RelPublish = FALSE
   AcqWorker = FALSE
   RelDone = FALSE
   AcqWait = FALSE
   LockedNotify = TRUE
+  SpuriousWake = FALSE
 SPECIFICATION FairSpec
 INVARIANTS NoDataRace ExactlyOnce TypeOK MutexOK
 PROPERTY Termination
